@@ -496,8 +496,8 @@ func c06Run(c *core.Ctx) {
 		report(kd, d, text, 200+len(text))
 	}
 	// (3e) multi-line literals line by line: every sequence of 2..3 (4 thorough) lines over a line alphabet
-	// (plain, trailing blanks, a // inside, quotes of each kind, blank-only, tab), as a backtick string and as a
-	// continued quoted string, in three statement places, top level and inside a function
+	// (plain, trailing blanks, a // inside, quotes of each kind, blank-only, tab), as a backtick string, as a
+	// continued quoted string and as a quoted string with raw line breaks (no backtick anywhere in the program), in three statement places, top level and inside a function
 	{
 		lines := []string{"x", "x  ", "http://x", "http://x  ", "  ", "\"", "'", "// c \t", "a ' // \" "}
 		maxL := 3
@@ -522,6 +522,11 @@ func c06Run(c *core.Ctx) {
 				lits := []string{tpl}
 				if !strings.Contains(tpl, "\"") {
 					lits = append(lits, "\""+strings.Join(parts, "\\\n")+"\"")
+					// the lexer also accepts a raw line break inside a quoted string: an accepted program like any other
+					lits = append(lits, "\""+strings.Join(parts, "\n")+"\"")
+				}
+				if !strings.Contains(tpl, "'") {
+					lits = append(lits, "'"+strings.Join(parts, "\n")+"'")
 				}
 				for _, lit := range lits {
 					for _, src := range []string{
